@@ -14,3 +14,4 @@ import Dalek.Props.C01.FiatHistory51
 import Dalek.Props.C01.FiatHistory26
 import Dalek.Props.C01.FiatBytes51
 import Dalek.Props.C01.FiatBytes26
+import Dalek.Props.C01.FiatIdioms
